@@ -25,11 +25,11 @@ from concurrent.futures import ThreadPoolExecutor
 VERIF = os.path.dirname(os.path.dirname(os.path.abspath(__file__)))
 
 
-def run_one(sid: str, workers: int, tier: str, opts: list) -> dict:
+def run_one(sid: str, workers: int, tier: str, opts: list, as_prop: str | None = None) -> dict:
     d = os.path.join(VERIF, "seeded", sid)
     with open(os.path.join(d, "meta.json"), encoding="utf-8") as f:
         meta = json.load(f)
-    prop = meta["property"]
+    prop = as_prop or meta["property"]
     scratch = tempfile.mkdtemp(prefix=f"dl-verif-seeded-{sid}-", dir="/var/tmp")
     t0 = time.monotonic()
     try:
@@ -62,16 +62,17 @@ def main() -> int:
     ap.add_argument("--jobs", type=int, default=2)
     ap.add_argument("--tier", default="quick")
     ap.add_argument("--opt", action="append", default=[])
+    ap.add_argument("--as-prop", help="run this property's check instead of the one named in meta.json (cross-property catches)")
     a = ap.parse_args()
     ids = sorted(os.path.basename(os.path.dirname(p)) for p in glob.glob(os.path.join(VERIF, "seeded", "*", "patch.diff")))
     if a.only:
         ids = [i for i in ids if i in a.only.split(",") or i.split("-")[0] in a.only.split(",")]
     workers = max(2, 16 // max(1, a.jobs))
     with ThreadPoolExecutor(max_workers=a.jobs) as ex:
-        results = list(ex.map(lambda i: run_one(i, workers, a.tier, a.opt), ids))
+        results = list(ex.map(lambda i: run_one(i, workers, a.tier, a.opt, a.as_prop), ids))
     for r in results:
         print(("caught " if r["caught"] else "MISSED ") + f"{r['id']:<40} exit={r['exit']} {r['wall_s']:>7}s {r.get('signature', '')} {r.get('note', '')}")
-    if not a.only:
+    if not a.only and not a.as_prop:
         with open(os.path.join(VERIF, "selftest", f"seeded_report_{a.tier}.json"), "w", encoding="utf-8") as f:
             json.dump({"results": results}, f, indent=1)
     print(f"{sum(r['caught'] for r in results)}/{len(results)} caught")
